@@ -90,15 +90,22 @@ record("StrandParams", {"require_monointronic_polya": "bool", "report_canonical_
                         "use_technical_replicas": "bool"})
 record("GeneInfoStrand", {"gene_strands": "dict[str,str]", "chr_id": "str"})
 record("PathStorageX", {"paths_to_reads": "any"})
-record("CtorStrand", {"params": "rec:StrandParams", "gene_info": "rec:GeneInfoStrand", "path_storage": "rec:PathStorageX"})
+record("ExcludingIdDistributor", {"value": "int", "forbidden_ids": "set[int]"})
+record("CtorStrand", {"params": "rec:StrandParams", "gene_info": "rec:GeneInfoStrand", "path_storage": "rec:PathStorageX",
+                      "id_distributor": "rec:ExcludingIdDistributor"})
 
 contract(G + "GraphBasedModelConstructor.select_reference_gene",
          {"self": "rec:CtorStrand", "transcript_introns": IVS, "transcript_range": IV, "transcript_strand": "str"},
          returns="opt[str]", trusted=True, props=[], native=False,
          ensures=["result is None or result in self.gene_info.gene_strands"],
-         note="overlap scoring against reference genes; assumed: returns None or a reference gene id")
-contract(G + "GraphBasedModelConstructor.get_transcript_id", {"self": "rec:CtorStrand"}, returns="int", trusted=True, props=[], native=False,
-         ensures=["result >= 1"], note="draws the next number from the ExcludingIdDistributor (C17)")
+         note="overlap scoring against reference genes; assumed: returns None or a reference gene id (an attempt to prove it stopped at "
+              "sets nested in dict values, which the engine cannot iterate)")
+# proved against the contract of ExcludingIdDistributor.increment (C17): the number is new, larger than every number handed out before and
+# not one the reference annotation already uses
+contract(G + "GraphBasedModelConstructor.get_transcript_id", {"self": "rec:CtorStrand"}, returns="int", props=["C17", "C04"], native=False,
+         modifies=["self.id_distributor.value"], requires=["self.id_distributor.value >= 0"],
+         ensures=["result >= 1", "result > old(self.id_distributor.value)", "result not in self.id_distributor.forbidden_ids",
+                  "self.id_distributor.value == result"])
 
 contract(G + "GraphBasedModelConstructor.construct_fl_isoforms#strand",
          {"self": "rec:CtorStrand", "count": "int", "novel_isoform_cutoff": "int", "novel_exons": IVS, "polya_site": "bool",
@@ -106,7 +113,9 @@ contract(G + "GraphBasedModelConstructor.construct_fl_isoforms#strand",
          returns="opt[str]", props=["C04", "C18"], extract=_strand_extract, native=False,
          bind={"CtorStrand.select_reference_gene": G + "GraphBasedModelConstructor.select_reference_gene",
                "CtorStrand.get_transcript_id": G + "GraphBasedModelConstructor.get_transcript_id"},
+         modifies=["self.id_distributor.value"],
          requires=[
+             "self.id_distributor.value >= 0",
              # what the StrandDetector contracts (C18) establish about the two strands handed in
              "transcript_strand == '+' or transcript_strand == '-' or transcript_strand == '.'",
              "transcript_clean_strand == '+' or transcript_clean_strand == '-' or transcript_clean_strand == '.'",
